@@ -120,6 +120,25 @@ func sourceLiteralTokens(r *ev.Run, G *gprops, gs *gstats, vers []int) {
 				}
 				n++
 			}
+			// L as the value of every metric of the full seed in turn, and as its name
+			full := seeds(ver)[len(seeds(ver))-1]
+			if ver == 3 {
+				full = seeds(3)[2]
+			}
+			toks := strings.Split(full, "/")
+			for i, tk := range toks {
+				c := strings.IndexByte(tk, ':')
+				if c < 0 || (ver == 3 && i == 0) {
+					continue
+				}
+				for _, repl := range []string{tk[:c] + ":" + L, L + tk[c:]} {
+					x := append(append(append([]string{}, toks[:i]...), repl), toks[i+1:]...)
+					for lv := 0; lv < 3; lv++ {
+						judge(r, G, gs, ver, lv, strings.Join(x, "/"))
+					}
+					n++
+				}
+			}
 		}
 	}
 	r.Add("source_literal_inputs", n)
